@@ -60,4 +60,19 @@ theorem C01_every_message_is_modelled :
         ("x/sao/keeper", "RecoverFaults"), ("x/sao/keeper", "Renew"), ("x/sao/keeper", "ReportFaults"), ("x/sao/keeper", "Store"),
         ("x/sao/keeper", "Terminate"), ("x/sao/keeper", "UpdataPermission") ] := by decide
 
+/-- the harness calls the blockers directly, in the order `endBlock` of the model composes them (sao, node, order, model);
+    that this is the order the application wires — and that the node keeper's staking hooks are registered, which is how a
+    delegation reaches `verifySuper` (C20) — is read off `app/app.go` -/
+theorem C01_blocker_order_and_hooks_as_modelled :
+    (Generated.appWiring.filter (fun x => x.1 = "SetOrderEndBlockers")).map (·.2.2) =
+      ["saomoduletypes.ModuleName", "nodemoduletypes.ModuleName", "ordermoduletypes.ModuleName", "modelmoduletypes.ModuleName",
+       "didmoduletypes.ModuleName", "marketmoduletypes.ModuleName"] ∧
+    (Generated.appWiring.filter (fun x => x.1 = "SetOrderBeginBlockers")).map (·.2.2) =
+      ["saomoduletypes.ModuleName", "nodemoduletypes.ModuleName", "ordermoduletypes.ModuleName", "modelmoduletypes.ModuleName",
+       "didmoduletypes.ModuleName", "marketmoduletypes.ModuleName"] ∧
+    (Generated.appWiring.filter (fun x => x.1 = "SetHooks")) =
+      [("SetHooks", "stakingKeeper",
+        "stakingtypes.NewMultiStakingHooks(app.DistrKeeper.Hooks(), app.SlashingKeeper.Hooks(), app.NodeKeeper.Hooks())")] := by
+  decide
+
 end SaoVerif
